@@ -30,6 +30,8 @@ func newPacketBuffer(r io.Reader, packetSize int, s PacketSkipper) (pb *packetBu
 	if pb.packetSize == 0 {
 		// Auto detect packet size
 		if pb.packetSize, err = autoDetectPacketSize(r); err != nil {
+			// Don't hand out a packet buffer without a packet size
+			pb = nil
 			err = fmt.Errorf("astits: auto detecting packet size failed: %w", err)
 			return
 		}
@@ -49,6 +51,14 @@ func autoDetectPacketSize(r io.Reader) (packetSize int, err error) {
 		err = fmt.Errorf("astits: reading first %d bytes failed: %w", l, rerr)
 		return
 	}
+
+	// In case of failure make sure the bytes that have been looked at are consumed, like with a plain reader,
+	// so that the next attempt makes progress
+	defer func() {
+		if br, ok := r.(*bufio.Reader); ok && err != nil && !shouldRewind {
+			br.Discard(len(b))
+		}
+	}()
 
 	// Packet must start with a sync byte
 	if b[0] != syncByte {
@@ -93,6 +103,13 @@ func peek(r io.Reader, b []byte) (shouldRewind bool, err error) {
 		var bs []byte
 		bs, err = br.Peek(len(b))
 		if err != nil {
+			if err == io.EOF && len(bs) > 0 {
+				// An input shorter than b is not an error here: the caller decides based on what could be read
+				copy(b, bs)
+				return false, nil
+			}
+			// Consume what has been looked at, like a plain reader does, so that the next attempt makes progress
+			br.Discard(len(bs))
 			return
 		}
 		copy(b, bs)
